@@ -764,3 +764,51 @@ func lemmaRangesetSub2(a0, b0, a1, b1, start, end, v int64) (wf0, okWF, okMem bo
 	s.sub(start, end)
 	return wf0, rsWF(s), rsMember(s, v) == (before && !(start <= v && v < end))
 }
+
+// ---------------------------------------------------------------------------
+// Stream-count limits at the call sites (property C21): a finished stream is credited to the
+// peer's stream limit only if the peer opened it.
+//
+//@ func (*Conn).appendStreamFrames(c, w, pnum, pto) (r)
+//@   requires c != nil
+//@   assert at call close: s.id.initiator() != c.side
+//@   loop 1 invariant c != nil
+//@   loop 2 invariant c != nil
+//@   partial nopanic, pre
+//@   noframe
+//
+// The callees of appendStreamFrames are abstracted: each may change the whole heap except the
+// immutable identity fields the assertion speaks about (a stream's id, a connection's side).
+//
+//@ func (*Conn).appendMaxDataFrame(c, w, pnum, pto) (r)
+//@   trusted
+//@   havocs except Stream.id, Conn.side
+//@ func (*Conn).appendStreamFramesPTO(c, w, pnum) (r)
+//@   trusted
+//@   havocs except Stream.id, Conn.side
+//@ func (*Conn).appendMaxStreams(c, w, pnum, pto) (r)
+//@   trusted
+//@   havocs except Stream.id, Conn.side
+//@ func (*Stream).appendInFramesLocked(s, w, pnum, pto) (r)
+//@   trusted
+//@   havocs except Stream.id, Conn.side
+//@ func (*Stream).appendOutFramesLocked(s, w, pnum, pto) (r)
+//@   trusted
+//@   havocs except Stream.id, Conn.side
+//@ func (*Stream).inUnlockNoQueue(s) (r)
+//@   trusted
+//@   havocs except Stream.id, Conn.side
+//@ func (*Stream).outUnlockNoQueue(s) (r)
+//@   trusted
+//@   havocs except Stream.id, Conn.side
+//@ func (*streamRing).remove(r, s)
+//@   trusted
+//@   havocs except Stream.id, Conn.side
+//@ func (*Conn).queueStreamForSendLocked(c, s, state)
+//@   trusted
+//@   havocs except Stream.id, Conn.side
+//@ func (*atomicBits[streamState]).set(a, v, mask) (r)
+//@   trusted
+//@   havocs except Stream.id, Conn.side
+//@ func (*atomicBits[streamState]).load(a) (r)
+//@   trusted
